@@ -56,7 +56,7 @@ def mt_rows():
     return [(k, dm.MESSAGE_TYPE[k].command_field, uid[k]) for k in sorted(dm.MESSAGE_TYPE)]
 
 
-def observe(cls, data, pc, m, sizes, file_mode, rng, fill_seed):
+def observe(cls, data, pc, m, sizes, file_mode, rng, fill_seed, dst_value=None):
     """Fragment a message with the implementation, regroup, feed the real decoder."""
     from pynetdicom2 import fsm, pdu, dsutils, asceprovider, applicationentity
     from pydicom import uid as pyuid
@@ -71,6 +71,9 @@ def observe(cls, data, pc, m, sizes, file_mode, rng, fill_seed):
         msg.command_set.AffectedSOPInstanceUID = '1.2.3.%d' % fill_seed
     if data:
         msg.data_set = data
+        if dst_value is not None:
+            # PS3.7: only 0101H says "no data set"; a peer may announce its data set with another value
+            msg.command_set.CommandDataSetType = dst_value
     cmd, pdus = impl.send_and_collect(msg, pc, m)
     frags = [p.data_value_items[0] for p in pdus]
     groups = []
@@ -89,8 +92,20 @@ def observe(cls, data, pc, m, sizes, file_mode, rng, fill_seed):
         ae = pynetdicom2.ClientStorageAE(tmpdir, 'VERIF')
     else:
         ae = applicationentity.ClientAE('VERIF')
+    get_file = ae.get_file
+    own_header = b''
+    if file_mode == 'custom':
+        own_header = b'REC!' + bytes(range(28))
+
+        def get_file(context, command_set):
+            import tempfile
+            fp = tempfile.TemporaryFile(dir=common.BUILD)
+            fp.write(own_header)                                   # the application's own record header
+            start = fp.tell()
+            applicationentity.write_meta(fp, command_set, context.supported_ts)
+            return fp, start
     ctxs = {pc: asceprovider.PContextDef(pc, pyuid.UID(sop or '1.2'), pyuid.UID(IMPLICIT))}
-    dec = fsm.DIMSEDecoder(ctxs, store, ae.get_file)
+    dec = fsm.DIMSEDecoder(ctxs, store, get_file)
     flags = []
     err = None
     for g in groups:
@@ -125,14 +140,23 @@ def observe(cls, data, pc, m, sizes, file_mode, rng, fill_seed):
             dsv.seek(0)
             dat = dsv.read()
             prefix = dat[:len(dat) - len(data)]
+            if own_header:
+                handed_ok = handed_ok and dat[:len(own_header)] == own_header     # the application's bytes are intact
             try:
-                ds = pydicom.dcmread(io.BytesIO(dat))
+                ds = pydicom.dcmread(io.BytesIO(dat[len(own_header):]))
                 file_ok = (handed_ok and dsutils.encode(ds, True, True) == data and
                            str(ds.file_meta.TransferSyntaxUID) == IMPLICIT)
             except Exception:
                 file_ok = False
             dsv.close()
-        final = (type(m_).command_field, dsutils.encode(m_.command_set, True, True), dat, in_file, dec.pc_id)
+        cs = m_.command_set
+        if dst_value is not None and data and cs.CommandDataSetType == 0x0001:
+            # observation O10: attaching the data set to the received message object rewrites a peer's other
+            # "data set present" value to 0001H; same meaning, compared modulo that
+            import copy
+            cs = copy.deepcopy(cs)
+            cs.CommandDataSetType = dst_value
+        final = (type(m_).command_field, dsutils.encode(cs, True, True), dat, in_file, dec.pc_id)
     if tmpdir:
         import shutil
         shutil.rmtree(tmpdir, ignore_errors=True)
@@ -170,14 +194,15 @@ def main(tier, seed):
         for data_size, m in ((0, 16384), (0, 40), (10, 16384), (60, 64), (200, 90)):
             data = sample_dataset(rng, data_size) if data_size else b''
             can_file = ('AffectedSOPInstanceUID' in cls.command_fields and 'AffectedSOPClassUID' in cls.command_fields)
-            for file_mode in ((False, True, 'dir') if (data_size and can_file) else (False,)):
+            for file_mode in ((False, True, 'dir', 'custom') if (data_size and can_file) else (False,)):
                 k += 1
                 n = sum(1 for _ in impl.send_and_collect(_msg_like(cls, data, k), 1, m)[1])
                 comps = list(compositions(n, limit, rng))
                 if tier == 'quick' and len(comps) > 8:
                     comps = [comps[0], comps[-1]] + rng.sample(comps[1:-1], 6)
-                for sizes in comps:
-                    obs.append(observe(cls, data, 1 + 2 * (k % 100), m, sizes, file_mode, rng, k))
+                for j, sizes in enumerate(comps):
+                    dst = [None, None, 0x0000, 0x0102, 0x0100][(k + j) % 5] if data_size else None
+                    obs.append(observe(cls, data, 1 + 2 * (k % 100), m, sizes, file_mode, rng, k, dst))
     terms = [render(c, mt) for c in obs]
     run = common.CoqRun('C07')
     run.add('Table', common.CASE_HEADER + IMPORTS + 'Open Scope N_scope.\n' +
